@@ -1,9 +1,15 @@
 //! h_fri — harness for winter-fri: C08 (completeness), C09 (soundness side).
 
+mod c08;
+mod c09;
+mod common;
+
 fn main() {
     mck::install_panic_hook();
     let args = mck::Args::parse();
     match args.prop.as_str() {
+        "C08" => c08::run(&args),
+        "C09" => c09::run(&args),
         p => mck::report::machinery(&format!("h_fri does not serve property {p:?}")),
     }
 }
